@@ -13,6 +13,7 @@ import GraphiqModel.Proofs.DMSem
 import GraphiqModel.Proofs.C17Bridge
 import GraphiqModel.Proofs.C17BridgeUhlmann
 import GraphiqModel.Proofs.C17BridgeStab
+import GraphiqModel.Proofs.SweepNoisePsd
 namespace Graphiq.C17
 open Graphiq Graphiq.DM
 
@@ -316,5 +317,23 @@ example : bellTab.isSymplectic = true ∧ (Tab.ket0 2).isSymplectic = true ∧ b
 example : ∃ ψ : Hilbert.Bits bellTab.n → ℂ, dotProduct (star ψ) ψ = 1 ∧
     Hilbert.Rep bellTab.n (stabilizerDensity bellTab) (C17B.ketBra ψ) :=
   C17B.stabilizerDensity_rep_ketBra bellTab ((Tab.isSymplectic_iff _).1 (by decide))
+
+/-! ## Cross-references (sweep): one embedding for C01 / C06 / C17
+
+  The bridge of this file (`Hilbert.Rep`, deep-c01) and the embedding C06 uses (`MixDM.toC`, deep-c06) are the same map
+  (`Proofs/SweepBridge.lean`); hence the exact tests proved correct here apply to the matrices C06's theorems are about. -/
+
+/-- **one embedding**: `Hilbert.Rep n m M` says exactly "`m` has size `2ⁿ` and `MixDM.toC n m = M`" -/
+theorem bridge_is_the_embedding_of_C06 (n : Nat) (m : Mat) (M : Hilbert.DMat n) :
+    Hilbert.Rep n m M ↔ m.n = 2 ^ n ∧ MixDM.toC n m = M := Sweep.rep_iff_toC n m M
+
+/-- **the density matrix the exact model of the noisy `DensityMatrixCompiler` returns (C06) passes the exact positivity test
+    of this file** — every measurement-free circuit on existing qubits, physical noise parameters, every number of qubits
+    (positivity itself is `C06.dm_is_positive_semidefinite`; the test's correctness is `exact_psd_test_correct`) -/
+theorem noisy_compiled_dm_passes_the_exact_psd_test (ns : Bool) (ne np nc : Nat) (det : Bool) (ops : List Noise.COp)
+    (hw : ∀ op ∈ ops, MixDM.OpOK (ne + np) np op) (hl : ∀ op ∈ ops, MixDM.ParamPhys op.n0 ∧ MixDM.ParamPhys op.n1)
+    (d : Noise.DmSt) (ρ : Mat) (h : Noise.compileDM ns ne np nc det ops = .ok d) (hρ : d.ρ = some ρ) :
+    isPsd ρ = true :=
+  (Sweep.compileDM_isPsd ns ne np nc det ops hw hl d ρ h hρ).1
 
 end Graphiq.C17
